@@ -199,6 +199,7 @@ class SimEvent(object):
   def __init__(self):
     self._flag = False
     self._label = _label('event')
+    _y(19)      # constructing an object takes time: a pre-emption point (matters when construction itself is raced)
 
   def is_set(self):
     _y(20)
